@@ -418,6 +418,117 @@ def run_C04(res):
     res.count("distinct_feature_classes_interned", len(table))
     res.count("positions_keyed", len(allpos))
     res.notes.append("'different keys in everything explored' is an exploration by its wording; counts above")
+    key_relations_C04(res)
+
+
+def realise_relation(labels):
+    """two FENs whose key components differ exactly by the given relation (piece-square keys in same-kind pairs = one piece on either
+    of two squares, or single = a piece present / absent; castling rights, an en-passant file), or None when the pattern is not covered"""
+    pcs, eps, cas = [], [], []
+    for l in labels:
+        if l == "turn":
+            return None
+        if l.startswith("ep:"):
+            eps.append("abcdefgh".index(l[3]))
+        elif l.startswith("castle:"):
+            cas.append(l[7])
+        else:
+            pcs.append((l[0], l[1], "abcdefgh".index(l[3]) + 8 * (int(l[4]) - 1)))
+    if len(eps) > 1:
+        return None
+    A, B = {}, {}                     # square -> piece letter for the two positions (differences only)
+    kinds = {}
+    for c, k, sq in pcs:
+        kinds.setdefault((c, k), []).append(sq)
+    for (c, k), sqs in kinds.items():
+        letter = k if c == "w" else k.lower()
+        if len(sqs) == 2:
+            A[sqs[0]], B[sqs[1]] = letter, letter
+        elif len(sqs) == 1 and k != "K":
+            A[sqs[0]] = letter
+        else:
+            return None
+    out = []
+    for swap in (False, True):
+        X, Y = (B, A) if swap else (A, B)
+        for wk in (4, 6, 2, 60, 12, 52, 20, 44, 31, 24):
+            for bk in (60, 62, 58, 4, 52, 12, 39, 32):
+                base = {}
+                if not any(v == "K" for v in list(X.values()) + list(Y.values())):
+                    base[wk] = "K"
+                if not any(v == "k" for v in list(X.values()) + list(Y.values())):
+                    base[bk] = "k"
+                for r in cas:
+                    base[{"K": 7, "Q": 0, "k": 63, "q": 56}[r]] = "R" if r in "KQ" else "r"
+                    if r in "KQ" and "K" not in list(X.values()) + list(Y.values()):
+                        base.pop(wk, None)
+                        base[4] = "K"
+                    if r in "kq" and "k" not in list(X.values()) + list(Y.values()):
+                        base.pop(bk, None)
+                        base[60] = "k"
+                epf = eps[0] if eps else None
+                if epf is not None:
+                    base[24 + epf] = "P"          # white pawn that has just made a double step; Black to move
+                    if epf > 0:
+                        base.setdefault(24 + epf - 1, "p")
+                fens = []
+                for D, rights, ep in ((X, cas, epf), (Y, [], None)):
+                    b = dict(base)
+                    clash = any(sq in b for sq in D)
+                    b.update(D)
+                    if clash or list(b.values()).count("K") != 1 or list(b.values()).count("k") != 1:
+                        fens = None
+                        break
+                    rows = []
+                    for r in range(7, -1, -1):
+                        row, e = "", 0
+                        for f in range(8):
+                            x = b.get(8 * r + f)
+                            if x is None:
+                                e += 1
+                            else:
+                                row += (str(e) if e else "") + x
+                                e = 0
+                        rows.append(row + (str(e) if e else ""))
+                    rs = "".join(c for c in "KQkq" if c in rights) or "-"
+                    side = "b" if epf is not None else "w"
+                    fens.append("/".join(rows) + f" {side} {rs} " + ("abcdefgh"[ep] + "3" if ep is not None else "-") + " 0 1")
+                if fens:
+                    out.append(tuple(fens))
+    return out
+
+
+def key_relations_C04(res):
+    """the distinctness clause at the level of the key table: a short XOR relation among the keys = two positions differing in a handful of
+    components with equal keys; found relations are turned into a concrete pair of positions on the real code where the pattern allows"""
+    import subprocess
+    cmd = ["python3-vt", os.path.join(vlib.VERIF, "tools", "key_relations.py")] + (["--full"] if res.tier == "thorough" else [])
+    try:
+        p = subprocess.run(cmd, capture_output=True, text=True, timeout=900, env=vlib.ENV)
+        out = json.loads(p.stdout.strip().splitlines()[-1])
+    except Exception as e:       # tooling interpreter missing: not an alarm, say so
+        res.notes.append("key-relation search not run (python3-vt / numpy unavailable): " + str(e)[:100])
+        return
+    if "error" in out:
+        res.broken.append("translator: " + out["error"])
+        return
+    res.coverage["key_table_relations_searched"] = out["searched"]
+    res.count("key_table_short_relations_found", len(out["relations"]))
+    for rel in out["relations"]:
+        pairs = realise_relation(rel) or []
+        done = False
+        for fa, fb in pairs[:200]:
+            ra, rb = run_hx(["fenin " + fa, "fenin " + fb])
+            if ra in ("PANIC", "DIED") or rb in ("PANIC", "DIED"):
+                continue
+            if not all(d.split()[0] == "1" for d in run_driver(["sind " + ra, "sind " + rb])):
+                continue
+            if Pos(ra).hash == Pos(rb).hash and fa.split()[:4] != fb.split()[:4]:
+                res.fail("two positions differing in placement / castling rights / en-passant file share a key", a=fa, b=fb, key=Pos(ra).hash, relation=rel)
+                done = True
+                break
+        if not done:
+            res.broken.append("the Zobrist key table has a short XOR relation (positions differing exactly in these components collide): " + " ^ ".join(rel))
 
 
 # ------------------------------------------------------------------ C09
